@@ -2,6 +2,8 @@ SPECIFICATION RSpec
 CONSTANTS
   Pool = "c"
   MaxActions = 2
-  MaxOps = 3
-INVARIANTS RTypeOK UniqueIds SigsInGrammar TupleShaped Consistent AtMostOneSpecial OnlyCarriable SubsConsistent GetSeesLastSet DeliveredIffSubscribed
+  MaxOps = 2
+  MaxPick = 2
+  Layouts = {"aux-first"}
+INVARIANTS RTypeOK ItfTheorems SubsConsistent GetSeesLastSet GetDenotesLastSet DeliveredIffSubscribed RefsDenoteSent ExecutedOnce ImplHoldsServiceIds ClientRefsResolvable ForwardersSound HandlesFresh
 CHECK_DEADLOCK FALSE
